@@ -561,6 +561,7 @@ class TensorDict(TensorDictBase):
                         key,
                         value,
                         inplace,
+                        memo,
                     )
                 else:
                     if not inplace:
@@ -4759,6 +4760,7 @@ def _set_tensor_dict(  # noqa: F811
     name: str,
     tensor: torch.Tensor,
     inplace: bool,
+    memo: dict | None = None,
 ) -> None:
     """Simplified version of torch.nn.utils._named_member_accessor."""
     was_buffer = False
@@ -4771,7 +4773,14 @@ def _set_tensor_dict(  # noqa: F811
         out = __dict__.pop(name)
     if inplace:
         # swap tensor and out after updating out
-        out_tmp = out.clone()
+        # a tensor met again under another name (tied) keeps the content saved the
+        # first time: its current content is already a supplied value
+        saved = memo.setdefault("inplace", {}) if memo is not None else {}
+        if id(out) in saved:
+            out_tmp = saved[id(out)][1]
+        else:
+            out_tmp = out.clone()
+            saved[id(out)] = (out, out_tmp)
         out.data.copy_(tensor.data)
         tensor = out
         out = out_tmp
